@@ -9,6 +9,7 @@ import time
 
 # every quick-tier random budget written in the property modules is multiplied by this (they were sized for ~2 s runs)
 QUICK_SCALE = int(os.environ.get("MPV_QUICK_SCALE", "5"))
+THOROUGH_SCALE = int(os.environ.get("MPV_THOROUGH_SCALE", "4"))
 
 
 class HarnessProblem(Exception):
@@ -66,7 +67,7 @@ class Ctx(object):
 
     def n(self, quick, thorough):
         """Per-shard share of a total case budget."""
-        total = quick * QUICK_SCALE if self.tier == "quick" else thorough
+        total = quick * QUICK_SCALE if self.tier == "quick" else thorough * THOROUGH_SCALE
         total = min(total, thorough) if self.tier == "quick" else total
         base = total // self.nshards
         return base + (1 if self.shard < total % self.nshards else 0)
